@@ -391,10 +391,11 @@ class SymmetryTranslator:
         for subset in largest_subset(symbols):
             if len(subset) <= 1:
                 continue
-            preds: set[Predicate] = set()
+            preds: set[tuple[Sign, Predicate]] = set()
             for lit in subset:
                 symbol = lit.atom.symbol
-                preds.add(Predicate(symbol.name, len(symbol.arguments)))
+                # exchanging a positive and a negated atom of a predicate is no symmetry
+                preds.add((lit.sign, Predicate(symbol.name, len(symbol.arguments))))
             if len(preds) == 1:
                 yield tuple(sorted(subset))
 
